@@ -301,6 +301,22 @@ def oracle(req, reply, fields=None):
         for k, default in (("inertia", f2b(0.5)), ("gap", f2b(1.0)), ("max_bells", 15)):
             if on(k) and reply[k] != last.get(k, default):
                 return f"main({how!r}): {k} = {reply[k]!r}, given {last.get(k, default)!r}"
+        src = reply.get("source") or {}
+        comps = [o[1] for o in req["opts"] if o[0] == "comp"]
+        if on("source") and src.get("kind") == "comp" and comps:
+            # a plainly written reference (an id or a complib.org address, with at most an access key and a
+            # substituted method): CompLib is asked for exactly that composition with exactly those two things
+            import re
+            m = re.fullmatch(r"(?:https?://)?(?:www\.)?(?:complib\.org/composition/)?([0-9]+)(?:\?([A-Za-z0-9=&]*))?", comps[-1])
+            if m:
+                parts = dict(p.split("=", 1) for p in (m.group(2) or "").split("&") if p.count("=") == 1)
+                if set(parts) <= {"accessKey", "substitutedmethodid"} and parts.get("substitutedmethodid", "1").isdigit() \
+                        and (m.group(2) or "").count("accessKey") <= 1 and (m.group(2) or "").count("substitutedmethodid") <= 1:
+                    q = ([f"accessKey={parts['accessKey']}"] if parts.get("accessKey") else []) + \
+                        ([f"substitutedmethodid={int(parts['substitutedmethodid'])}"] if int(parts.get("substitutedmethodid", "0")) else [])
+                    want = f"https://api.complib.org/composition/{int(m.group(1))}/rows" + ("?" + "&".join(q) if q else "")
+                    if src.get("url") != want:
+                        return f"main({how!r}): CompLib was asked for {src.get('url')}, the reference {comps[-1]!r} means {want}"
         got, names = reply["name"], [o[1] for o in req["opts"] if o[0] == "name"]
         # (how the name is handed on is Wheatley's business - a string, or a collection of the names given;
         # what is judged is which names it is: the model comparison reports a change of representation)
